@@ -1,19 +1,18 @@
 import PyYetiVerif.Model.Findap
 /-
-REPAIR CANDIDATES for `pyyeti.cyclecount.findap` (findings F4, F14, F22, F23) — models of the
-*patched* functions of `corpus/c10_F4_candidate_fix.diff` and
-`corpus/c10_F14_F22_F23_candidate_fix.diff`.  Nothing here models code that exists in /repo; the
-models are tied to the patched text by `corpus/c10_candidate_fix_check.py` (run in a scratch
-worktree).  Core Lean only.
+Model of `pyyeti.cyclecount.findap` AS IT IS NOW (after the repairs f8f6e40 and 4b29dcf; these were
+the proved repair candidates of the third phase, hence the `…Fix` names), both source variants.
+Core Lean only.
 
-* default variant (F4): the de-duplication mask compares with the last KEPT sample (hysteresis)
-  instead of the previous sample; the patch keeps the vectorised `find_unique` mask whenever a
-  vectorised test shows that both masks coincide (`fastOK`: no run of sub-tolerance steps leaves
-  the `stol` band of its first sample, and no super-tolerance step lands inside the band of the run
-  it leaves) and runs the sequential scan otherwise.
-* numba variant (F14, F22, F23): the size-2 special case is deleted (the general code handles it
-  and honours `tol`), the end rule is `PV[j] = True` (the held candidate), `nxt` is no longer read
-  after the loop.
+* default variant (`if not HAVE_NUMBA:`): `u = locate.find_unique(y, tol); if not np.all(u):
+  u = _unique_kept(y, tol, u)`; then `yu = y[u]; s = sign(diff(yu)); pv[1:-1] = abs(diff(s)) == 2;
+  pv[-1] = yu[-1] != yu[-2]; PV[u] = pv`.  `_unique_kept` returns the `find_unique` mask when its
+  vectorised test passes (`fastOK`: no run of sub-tolerance steps leaves the `stol` band of its first
+  sample, no super-tolerance step lands inside the band of the run it leaves) and otherwise the
+  mask of the sequential scan "keep a sample iff it differs by more than `stol` from the last KEPT
+  sample" (`hystMask`).
+* numba variant (`else:` branch; source text only in this sandbox): the sequential scan with
+  `prv`, `cur`, `j`, `mountain`; no size-2 special case; end rule `PV[j] = True`.
 -/
 namespace PyYetiVerif.Findap
 
